@@ -154,13 +154,13 @@ def check_case(case, wf):
         if r.success:
             X = r.y
             for k, i in enumerate(m['c_ids']):
-                if np.max(np.abs(X[k] - V[i])) > 2e-5 * max(np.max(np.abs(X[k])), 1e-3 * sv):
+                if np.max(np.abs(X[k] - V[i])) > 2e-5 * max(np.max(np.abs(X[k])), 1e-3 * sv) + 2e-11:      # + 20 x the reference integrator's own atol
                     bad.append(('C12:not-the-exact-response', f'capacitor {i!r}: max deviation {np.max(np.abs(X[k] - V[i]))} from the independent '
                                 f'integration (scale {np.max(np.abs(X[k]))})'))
                     return bad, m
             for k, i in enumerate(m['l_ids']):
                 kk = len(m['c_ids']) + k
-                if np.max(np.abs(X[kk] - I[i])) > 2e-5 * max(np.max(np.abs(X[kk])), 1e-3 * si):
+                if np.max(np.abs(X[kk] - I[i])) > 2e-5 * max(np.max(np.abs(X[kk])), 1e-3 * si) + 2e-11:
                     bad.append(('C12:not-the-exact-response', f'inductor {i!r}: max deviation {np.max(np.abs(X[kk] - I[i]))}'))
                     return bad, m
     # settling to the DC solution for the final constant inputs
